@@ -22,4 +22,7 @@ func init() {
 	specs["C19"] = &PropSpec{Level: "exploration", QuickRuns: 150, ThorRuns: 1500, Wall: 180 * time.Second, MaxProcs: 2, Modes: []string{"select", "route", "reconnect"},
 		Rule:   "mode select: histories of open/close(release)/close-only/busy operations interleaved with loadbalance.Select over all five policies (plus an unknown spelling) and generated xids, one evaluation per selection; mode route: three coordinator sessions, XID policy, requests through SendSyncRequest; mode reconnect: TM + 1-3 TCC resources, session lost idle / with the commit in flight / between phase one and two, once or repeatedly; non-trivial = a closed session exists at selection time, or any route/reconnect episode",
 		Assume: commonAssume}
+	specs["C07"] = &PropSpec{Level: "exploration", QuickRuns: 96, ThorRuns: 1200, Wall: 180 * time.Second, MaxProcs: 2,
+		Rule:   "evaluation = one scope tree (depth <= 3, 1-2 children per scope) over the six propagation modes x callback outcome x link to the parent (same context, fresh context carrying the xid, grpc interceptor pair with upper/lower-case metadata, gin middleware with both header spellings, dubbo filter with SEATA_XID / TX_XID / tx_xid attachments), executed for real and interpreted by a reference interpreter of the documented semantics; distinct = distinct trees; non-trivial = depth > 1",
+		Assume: append([]string{"the schedule/fault dimension is deliberately empty for this property (fault-free coordinator, benign delays): the quantifier is over programs", "integration transports (gRPC/HTTP/dubbo) are not run: the interceptors/middleware/filter are the real functions, the wire is the metadata/header/attachment map copied into a fresh context"}, commonAssume...)}
 }
